@@ -158,6 +158,7 @@ structure St where
   m : LRUCache.State
   now : Int := 0
   g : Ghost := {}
+  delMid : Bool := false      -- a key that was not the newest was deleted (and no Clear since)
 
 def init (toks : List String) : Option St := do
   let size ← (kv? toks "size").bind nat?
@@ -181,7 +182,8 @@ def step (s : St) (kind : String) (args impl : List String) : Option (St × Step
       let g : Ghost := if impl = ["ok"] then
           { touch := s.g.touch.filter (·.1 ≠ k) ++ [(k, s.now)], dead := s.g.dead.filter (· ≠ k) } else s.g
       let evicted := s.m.entries.length + 1 - m.entries.length
-      some ({ s with m, g }, { obs := ["ok"], branch := if existed then "add.refresh" else if evicted = 0 then "add.new" else "add.new.evict" })
+      some ({ s with m, g }, { obs := ["ok"], branch := if existed then "add.refresh" else if evicted = 0 then "add.new"
+        else if s.delMid then "add.new.evict.after-delete" else "add.new.evict" })
   | "op", ["has", k] =>
     let r := has s.m s.now k
     let ttl := s.m.cfg.ttl
@@ -208,8 +210,9 @@ def step (s : St) (kind : String) (args impl : List String) : Option (St × Step
     some ({ s with g }, { obs := [boolTok r], branch := if r then "has.yes" else if (find s.m.entries k).isSome then "has.expired" else "has.absent", propfails := pf })
   | "op", ["delete", k] =>
     let g : Ghost := { touch := s.g.touch.filter (·.1 ≠ k), dead := s.g.dead.filter (· ≠ k) }
-    some ({ s with m := delete s.m k, g }, { obs := ["ok"], branch := "delete" })
-  | "op", ["clear"] => some ({ s with m := clear s.m, g := {} }, { obs := ["ok"], branch := "clear" })
+    let mid := (find s.m.entries k).isSome ∧ (s.m.entries.getLast?.map (·.1)) ≠ some k ∧ s.m.entries.length ≥ 3
+    some ({ s with m := delete s.m k, g, delMid := s.delMid || mid }, { obs := ["ok"], branch := if mid then "delete.mid" else "delete" })
+  | "op", ["clear"] => some ({ s with m := clear s.m, g := {}, delMid := false }, { obs := ["ok"], branch := "clear" })
   | "op", ["size"] =>
     let pf := match impl with
       | [n] => match n.toNat? with
